@@ -6,6 +6,7 @@ import (
 	"math/big"
 
 	"github.com/emmansun/gmsm/sm9"
+	hk "github.com/emmansun/gmsm/verifhook"
 
 	"verifh/mon"
 	ref "verifh/ref/sm9"
@@ -29,9 +30,14 @@ func transcript(x *mon.Ctx) {
 		for i := 0; i <= 200; i++ {
 			hid := hids[(i+rep)%4]
 			mk := masterKinds[(i/4+rep)%len(masterKinds)]
-			if c := x.Begin("sign rep=%d uidlen=%d hid=%#x master=%s", rep, i, hid, mk); c != nil {
-				signCase(c, i, hid, mk, rep)
-				c.End()
+			// quick: sign and kex sessions for every second uid length (wrap and enc, whose KDF
+			// input alignment is len(uid) mod 64, for every length); thorough: all, eight times
+			half := x.Thorough() || i%2 == 0
+			if half {
+				if c := x.Begin("sign rep=%d uidlen=%d hid=%#x master=%s", rep, i, hid, mk); c != nil {
+					signCase(c, i, hid, mk, rep)
+					c.End()
+				}
 			}
 			mk = masterKinds[(i/4+rep+3)%len(masterKinds)]
 			if c := x.Begin("wrap rep=%d uidlen=%d hid=%#x master=%s", rep, i, hid, mk); c != nil {
@@ -44,9 +50,12 @@ func transcript(x *mon.Ctx) {
 			}
 			lb := (i*37 + 11 + rep*53) % 201
 			kc := (i + rep) % 3
-			if c := x.Begin("kex rep=%d uidlenA=%d uidlenB=%d hid=%#x klen-class=%d confirm=%v", rep, i, lb, hid, kc, (i+rep/3)%2 == 0); c != nil {
-				kexCase(c, i, lb, hid, kc, (i+rep/3)%2 == 0)
-				c.End()
+			if half {
+				confirm := (i/2+rep/3)%2 == 0
+				if c := x.Begin("kex rep=%d uidlenA=%d uidlenB=%d hid=%#x klen-class=%d confirm=%v", rep, i, lb, hid, kc, confirm); c != nil {
+					kexCase(c, i, lb, hid, kc, confirm)
+					c.End()
+				}
 			}
 		}
 	}
@@ -85,9 +94,10 @@ func genSignMaster(c *mon.Case, kind string) (*sm9.SignMasterPrivateKey, *big.In
 	return smk, ks
 }
 
-// genEncMaster generates the encryption master key and checks Ppub-e = [ke]P1
-// with the naive reference G1.
-func genEncMaster(c *mon.Case, kind string) (*sm9.EncryptMasterPrivateKey, *big.Int) {
+// genEncMaster generates the encryption master key and checks Ppub-e = [ke]P1:
+// with the naive reference G1 (6 ms) when indep is set, else with the library's
+// own G1 through the hook.
+func genEncMaster(c *mon.Case, kind string, indep bool) (*sm9.EncryptMasterPrivateKey, *big.Int) {
 	stream, want := masterStream(c.R, kind)
 	var emk *sm9.EncryptMasterPrivateKey
 	var err error
@@ -105,7 +115,11 @@ func genEncMaster(c *mon.Case, kind string) (*sm9.EncryptMasterPrivateKey, *big.
 	if want != nil && ke.Cmp(want) == 0 {
 		c.Event("master_scalar_as_scripted", 1)
 	}
-	c.Eq("encryption master public key vs reference [ke]P1", emk.PublicKey().Bytes(), append([]byte{4}, ref.G1Mul(ke, ref.P1).Bytes()...))
+	if indep {
+		c.Eq("encryption master public key vs reference [ke]P1", emk.PublicKey().Bytes(), append([]byte{4}, ref.G1Mul(ke, ref.P1).Bytes()...))
+	} else {
+		c.Eq("encryption master public key vs [ke]P1", emk.PublicKey().Bytes(), g1BaseMul(ke))
+	}
 	return emk, ke
 }
 
@@ -222,16 +236,6 @@ func signCase(c *mon.Case, uidLen int, hid byte, mk string, rep int) {
 			c.Fail("reject", "Sign: %v", err)
 		}
 	}
-	// a cold master public key parsed from its serialisation verifies too
-	var pub2 *sm9.SignMasterPublicKey
-	if c.Call("UnmarshalSignMasterPublicKeyRaw", func() { pub2, err = sm9.UnmarshalSignMasterPublicKeyRaw(pub.Bytes()) }) {
-		if err != nil {
-			c.Fail("reject", "UnmarshalSignMasterPublicKeyRaw(pub.Bytes()): %v", err)
-		} else if c.Call("VerifyASN1(parsed key)", func() { okv = sm9.VerifyASN1(pub2, uid, hid, msg, sig1) }) && !okv {
-			c.Fail("reject", "a master public key parsed from its bytes refuses the signature")
-		}
-		c.Event("honest_verified", 1)
-	}
 	// wrong identity, hid, message
 	wrongs := []struct {
 		what string
@@ -247,6 +251,14 @@ func signCase(c *mon.Case, uidLen int, hid byte, mk string, rep int) {
 		wrongs[0].uid = append(append([]byte{}, uid...), 0)
 		wrongs[2].msg = msg[:len(msg)-1]
 	}
+	// another hid always; another uid or another message alternately (the sound
+	// workload presents many more wrong contexts)
+	wrongs = []struct {
+		what string
+		uid  []byte
+		hid  byte
+		msg  []byte
+	}{wrongs[1], wrongs[2*((uidLen/2+rep)%2)]}
 	for _, w := range wrongs {
 		if c.Call("VerifyASN1("+w.what+")", func() { okv = sm9.VerifyASN1(pub, w.uid, w.hid, w.msg, sig1) }) {
 			if okv {
@@ -260,7 +272,7 @@ func signCase(c *mon.Case, uidLen int, hid byte, mk string, rep int) {
 
 func wrapCase(c *mon.Case, uidLen int, hid byte, mk string, rep int) {
 	uid := c.R.Bytes(uidLen)
-	emk, ke := genEncMaster(c, mk)
+	emk, ke := genEncMaster(c, mk, true)
 	if emk == nil {
 		return
 	}
@@ -405,6 +417,11 @@ func decryptAll(c *mon.Case, euk *sm9.EncryptPrivateKey, uid []byte, m ref.Mode,
 			}})
 		}
 	}
+	// the primary entry point always, one of the alternatives in turn
+	if len(eps) > 2 {
+		alt := 1 + (len(ct)+len(uid))%(len(eps)-1)
+		eps = []ep{eps[0], eps[alt]}
+	}
 	for _, e := range eps {
 		var got []byte
 		var err error
@@ -448,7 +465,7 @@ func pickMsgLen(r *mon.Rand, m ref.Mode, k int) int {
 
 func encCase(c *mon.Case, x *mon.Ctx, uidLen int, hid byte, rep int) {
 	uid := c.R.Bytes(uidLen)
-	emk, ke := genEncMaster(c, "random")
+	emk, ke := genEncMaster(c, "random", false)
 	if emk == nil {
 		return
 	}
@@ -538,7 +555,7 @@ func kexCase(c *mon.Case, la, lb int, hid byte, kc int, confirm bool) {
 	klen := pickKLen(c.R, kc)
 	c.Class("kex/idA%%64=%d/kdf-blocks=%s/confirm=%v", la%64, blockClass(klen), confirm)
 	c.Class("kex/(idA+idB)%%64=%d/kdf-blocks=%s", (la+lb)%64, blockClass(klen))
-	emk, ke := genEncMaster(c, "random")
+	emk, ke := genEncMaster(c, "random", false)
 	if emk == nil {
 		return
 	}
@@ -600,14 +617,17 @@ func kexCase(c *mon.Case, la, lb int, hid byte, kc int, confirm bool) {
 	g1 := modelW(ra[1:], ukB.Bytes()[1:])
 	g2p := hk2GT(rb[1:], ukA.Bytes()[1:])
 	var rA *big.Int
-	qb, _ := ref.G1FromBytes(ref.EncUserPublic(emk.PublicKey().Bytes()[1:], uidB, hid))
-	for i := len(rndA.Log) - 1; i >= 0 && rA == nil; i-- {
+	qb := encUserPublic(emk.PublicKey().Bytes()[1:], uidB, hid) // [H1(IDB||hid)]P1 + Ppub-e, reference H1
+	for i := len(rndA.Log) - 1; i >= 0 && rA == nil && qb != nil; i-- {
 		e := rndA.Log[i]
 		if e.Probe || e.Want != 32 || e.N != 32 || e.Off < 0 || e.Off+32 > len(streamA) {
 			continue
 		}
 		v := new(big.Int).SetBytes(streamA[e.Off : e.Off+32])
-		if v.Sign() > 0 && v.Cmp(ref.N) < 0 && bytes.Equal(ref.G1Mul(v, qb).Bytes(), ra[1:]) {
+		if v.Sign() == 0 || v.Cmp(ref.N) >= 0 {
+			continue
+		}
+		if p, err := new(hk.G1).ScalarMult(qb, ref.Bytes32(v)); err == nil && bytes.Equal(p.Marshal(), ra[1:]) {
 			rA = v
 		}
 	}
@@ -617,7 +637,7 @@ func kexCase(c *mon.Case, la, lb int, hid byte, kc int, confirm bool) {
 		c.Event("kex_model_skipped_r_not_recovered", 1)
 		return
 	}
-	c.Event("kex_initiator_point_is_[r]QB_reference", 1)
+	c.Event("kex_initiator_point_is_[rA]QB", 1)
 	g3 := newGTExp(g2p, rA)
 	want := ref.Kex(uidA, uidB, ra[1:], rb[1:], g1, g2p.Marshal(), g3, klen)
 	c.Eq(fmt.Sprintf("shared key vs reference KDF(IDA||IDB||RA||RB||g1||g2||g3, %d)", klen), ska, want.SK)
